@@ -122,6 +122,8 @@ func (c *stepCtx) runStep(k int, st map[string]interface{}) []string {
 		return c.stepReject(st)
 	case "par":
 		return c.stepPar(k, st)
+	case "gated":
+		return c.stepGated(k, st)
 	case "legacy":
 		return []string{c.stepLegacy(st)}
 	case "allocs":
